@@ -17,7 +17,7 @@ TCrash ==
   /\ LET e == Rec[l]
          s == ScIndex(e.scenario)
          st == Steps(s)
-         o == [opened |-> e.opened, head_on_chain |-> e.head_on_chain, valid |-> e.valid, converged |-> e.converged]
+         o == [opened |-> e.opened, head_on_chain |-> e.head_on_chain, valid |-> e.valid, input_converged |-> e.input_converged, converged |-> e.converged]
      IN /\ e.at \in 1..(Len(st) + 1)
         /\ (e.at <= Len(st) => st[e.at].l = e.label)      \* bound to the recorded step list
         \* Recover's and Redeliver's post-conditions decide the event; a failing event is reported
